@@ -31,6 +31,8 @@ type c16Exec struct {
 	faultOut bool              // the fault concerns the output path: leftover partial output tolerated
 	baseline map[string]string // fault-free output to compare with on exit 0 (nil = only existence)
 	heavy    bool              // may cost seconds and a lot of memory on a defective tree
+	mustFail bool              // an input that cannot be read at all: exit 0 is a violation
+	sentinel string            // text the output must contain on exit 0 (the translation of the input's last definition)
 	devFull  bool              // the output path is /dev/full: exit 0 is a violation whatever is read back
 	scale    bool              // size-scaled input: its cost legitimately grows with the size (own CPU budget; exceeding it is inconclusive)
 	desc     string
@@ -83,6 +85,9 @@ func c16Judge(e *c16Exec, o *c16Obs) (class, what string) {
 			requested = append(requested, filepath.Join(filepath.Dir(a), "gen_"+strings.TrimSuffix(filepath.Base(a), ".fo")+".go"))
 		}
 	}
+	if o.exit == 0 && e.mustFail {
+		return "exit0-unreadable-input", "exit status 0 although an input file cannot be read"
+	}
 	if o.exit == 0 && e.devFull {
 		return "exit0-incomplete-output", "exit status 0 although no byte of the output could be written (destination /dev/full)"
 	}
@@ -91,6 +96,9 @@ func c16Judge(e *c16Exec, o *c16Obs) (class, what string) {
 			c, ok := o.gen[g]
 			if !ok {
 				return "exit0-missing-output", "exit status 0 but " + g + " was not written"
+			}
+			if e.sentinel != "" && !strings.Contains(c, e.sentinel) {
+				return "exit0-incomplete-output", fmt.Sprintf("exit status 0 but %s (%d bytes) lacks the translation of the input's last definition (%s)", g, len(c), e.sentinel)
 			}
 			if e.baseline != nil {
 				if want, ok := e.baseline[g]; ok && want != c {
@@ -473,9 +481,14 @@ func c16Workload(env *scratch.Env, tier string, rng *core.Rand) []*c16Exec {
 		out = append(out, &c16Exec{id: "args:" + name, class: "argument-list", files: files, mkdirs: mkdirs, args: args, noPkgAll: noPkg, desc: "argument list: " + name})
 	}
 	addArgs("missing-file", map[string]string{}, nil, []string{"nothere.fo"}, false)
+	out[len(out)-1].mustFail = true
 	addArgs("missing-second", map[string]string{"a.fo": good}, nil, []string{"a.fo", "nothere.fo"}, false)
+	out[len(out)-1].mustFail = true
 	addArgs("foi-only", map[string]string{"a.foi": "package_info q =\n  let F: int->int\n"}, nil, []string{"a.foi"}, false)
 	addArgs("directory-as-argument", map[string]string{}, []string{"d.fo"}, []string{"d.fo"}, false)
+	out[len(out)-1].mustFail = true
+	addArgs("directory-as-second-argument", map[string]string{"a.fo": good}, []string{"d.fo"}, []string{"a.fo", "d.fo"}, false)
+	out[len(out)-1].mustFail = true
 	addArgs("bad-after-good", map[string]string{"a.fo": good, "b.fo": bad}, nil, []string{"a.fo", "b.fo"}, false)
 	addArgs("good-after-bad", map[string]string{"a.fo": good, "b.fo": bad}, nil, []string{"b.fo", "a.fo"}, false)
 	addArgs("same-file-twice", map[string]string{"a.fo": good}, nil, []string{"a.fo", "a.fo"}, false)
@@ -573,6 +586,9 @@ func c16ScaleFamilies() []c16ScaleFam {
 		{"line-comments", func(n int) string { return H + rep("// c\n", n) + "let f (a:int) =\n  a\n" }, []int{1000, 100000}, nil},
 		{"blank-lines", func(n int) string { return H + rep("\n", n) + "let f (a:int) =\n  a\n" }, []int{1000, 1000000}, nil},
 		{"trailing-spaces", func(n int) string { return H + "let f (a:int) =\n  a" + rep(" ", n) + "\n" }, []int{1000, 1000000}, nil},
+		{"long-line-comment-first", func(n int) string { return "package main\n\n//" + rep("x", n) + "\nimport frt\n\nlet f (a:int) =\n  a\n" }, []int{1000, 70000, 1000000}, nil},
+		{"long-line-data-table", func(n int) string { return H + "let table = [0" + rep("; 1", n) + "]\n\nlet f (a:int) =\n  a\n" }, []int{1000, 30000}, []int{300000}},
+		{"long-line-block-comment-first", func(n int) string { return "package main\n\n/*" + rep("x", n) + "*/\nimport frt\n\nlet f (a:int) =\n  a\n" }, []int{70000, 1000000}, nil},
 		{"sinterp-holes", func(n int) string { return H + "let f (a:int) =\n  $\"" + rep("{a}", n) + "\"\n" }, []int{1000, 100000}, nil},
 	}
 }
@@ -585,8 +601,9 @@ func c16ScaleRuns(tier string) []*c16Exec {
 			sizes = append(sizes, f.thor...)
 		}
 		for _, n := range sizes {
-			out = append(out, &c16Exec{id: fmt.Sprintf("scale:%s@%d", f.name, n), class: "size-scaled", files: map[string]string{"x.fo": f.mk(n)}, args: []string{"x.fo"},
-				heavy: true, scale: true, desc: fmt.Sprintf("size-scaled input: %s x %d", f.name, n)})
+			// a last definition after the scaled construct: on exit 0 its translation must be in the output
+			out = append(out, &c16Exec{id: fmt.Sprintf("scale:%s@%d", f.name, n), class: "size-scaled", files: map[string]string{"x.fo": f.mk(n) + "\nlet zzLast () =\n  1\n"}, args: []string{"x.fo"},
+				heavy: true, scale: true, sentinel: "func zzLast(", desc: fmt.Sprintf("size-scaled input: %s x %d", f.name, n)})
 		}
 	}
 	return out
